@@ -42,13 +42,13 @@ theorem decodeSym_cut (h : Huffman) (lens : Array Nat) (hg : h.Good lens) (hnz :
     exact this
 
 /-- What one token of the spec decoder means for the cutter standing at the same bit. -/
-def TokCut (c : Cutter) (d0 : Int) (t : Tok) : Prop :=
+def TokCut (c : Cutter) (d0 : Int) (L256 : Nat) (t : Tok) : Prop :=
   match t with
   | .lit _ p1 => ∃ v b1, c.lHuff.decode c.bits = .ok (v, b1) ∧ 0 ≤ v ∧
       ({ c with bits := b1 } : Cutter).huffStep v d0 = ({ c with bits := b1 }, wrap32 (d0 + 1), none) ∧
       b1.Inv ∧ b1.pos = p1 ∧ b1.bytes = c.bits.bytes ∧ c.bits.pos < p1
   | .eob p1 => ∃ b1, c.lHuff.decode c.bits = .ok (256, b1) ∧ b1.Inv ∧ b1.pos = p1 ∧ b1.bytes = c.bits.bytes ∧
-      c.bits.pos < p1
+      c.bits.pos < p1 ∧ p1 = c.bits.pos + L256
   | .copy len _ p1 => ∃ v b1 b3, c.lHuff.decode c.bits = .ok (v, b1) ∧ 0 ≤ v ∧
       ({ c with bits := b1 } : Cutter).huffStep v d0 = ({ c with bits := b3 }, wrap32 (d0 + len), none) ∧
       b3.Inv ∧ b3.pos = p1 ∧ b3.bytes = c.bits.bytes ∧ c.bits.pos < p1
@@ -68,7 +68,7 @@ theorem take_avail (b : Bitstream) (hb : b.Inv) (n : Nat) (hn : n ≤ 13) (hav :
 /-- **One token**: the cutter decodes what the spec decodes, and moves to the same bit. -/
 theorem cut_tok (c : Cutter) (hc : c.OK) (ll dl : Array Nat) (hl hd : Huff) (ctx : BlockCtx c ll dl hl hd)
     (minL minD outSize : Nat) (d0 : Int) :
-    TokCut c d0 (huffTok hl hd minL minD c.bits.bytes c.bits.pos outSize) := by
+    TokCut c d0 (ll.getD 256 0) (huffTok hl hd minL minD c.bits.bytes c.bits.pos outSize) := by
   have hloff := offAt16_le ll 288 ctx.szl
   have hdoff := offAt16_le dl 288 (by have := ctx.szd; omega)
   simp only [huffTok]
@@ -76,7 +76,7 @@ theorem cut_tok (c : Cutter) (hc : c.OK) (ll dl : Array Nat) (hl hd : Huff) (ctx
   | truncated => simp only [TokCut]
   | corrupt => simp only [TokCut]
   | sym v p1 =>
-    obtain ⟨b1, e1, i1, q1, y1, lt1, v1, _⟩ :=
+    obtain ⟨b1, e1, i1, q1, y1, lt1, v1, hvlen⟩ :=
       decodeSym_cut c.lHuff ll ctx.gl ctx.nzl hl ctx.hl hloff c.bits hc.inv minL v p1 h1
     simp only []
     have hvcast : Int.ofNat v = (v : Int) := rfl
@@ -90,7 +90,7 @@ theorem cut_tok (c : Cutter) (hc : c.OK) (ll dl : Array Nat) (hl hd : Huff) (ctx
       by_cases hv2 : v = 256
       · simp only [hv2, if_true, TokCut]
         subst hv2
-        exact ⟨b1, e1, i1, q1, y1, lt1⟩
+        exact ⟨b1, e1, i1, q1, y1, lt1, by omega⟩
       · simp only [hv2, if_false]
         by_cases hv3 : v ≥ 286
         · simp only [hv3, if_true, TokCut]
